@@ -38,6 +38,19 @@ func drivePrior(p lz.Parser, prior []byte, mode int) {
 	if mode == 3 {
 		flags = lz.NoTrailingLiterals
 	}
+	if mode == 4 {
+		// the prior data arrives through Reset with a slice without spare capacity (copied into the parser's own
+		// array, which the next Reset may want to reuse) and is parsed completely
+		d := append(make([]byte, 0, len(prior)), prior...)
+		if p.Reset(d) != nil {
+			return
+		}
+		for {
+			if _, err := p.Parse(&blk, 0); err != nil {
+				return
+			}
+		}
+	}
 	for guard := 0; guard < 4*len(prior)+8; guard++ {
 		n, _ := p.Write(prior)
 		prior = prior[n:]
@@ -236,6 +249,8 @@ func resetLayers(tier string) []resetLayer {
 	}
 	return []resetLayer{
 		saWide, saMultifill, // slowest shards first
+		// prior installed by Reset(data): the second Reset meets an array sized for the first one
+		{Name: "hash-prior-by-reset", Kinds: HashKinds, Geos: wideGeos[:2], Level: 2, Prior: BinaryRange(1, 5), Next: BinaryRange(2, 9), Modes: []int{4}, ResetKinds: []int{1, 2}, Bound: 0},
 		// priors long enough to fill and wrap every search structure (hash slots overwritten, bucket ring wrapped)
 		// on the full set of search parameters, everything in one fill so that stale entries stay inside the window
 		{Name: "hash-prior-long", Kinds: HashKinds, Geos: wideGeos[:2], Level: 1, Prior: Union(FewLong(12), BinaryRange(5, 6)), Next: BinaryRange(4, 7), Modes: []int{0}, ResetKinds: []int{0, 2}, Bound: 0},
@@ -676,16 +691,24 @@ func init() {
 		ID: "C13",
 		Shards: func(tier string) []engine.Shard {
 			// the loop-level scenarios are the longest single shards: start them first
-			return append(append(loopShards(tier), resetShards(tier)...), concurrentShards(tier)...)
+			shards := append(append(loopShards(tier), resetShards(tier)...), concurrentShards(tier)...)
+			// component level: the rank set GSAP clears on Reset must behave like a new one afterwards (reused capacity)
+			return append(shards, engine.Shard{Name: "C13/bitset-bfs", Run: func(st *engine.Stats, col *engine.Collector) {
+				runBitsetBFS("C13", map[string]int{"quick": 6, "thorough": 7}[tier], st, col)
+			}})
 		},
 		Replay: func(raw json.RawMessage, col *engine.Collector) error {
 			var probe struct {
-				Scenario string `json:"scenario"`
-				Loop     string `json:"loop_scenario"`
+				Scenario  string `json:"scenario"`
+				Loop      string `json:"loop_scenario"`
+				Component string `json:"component"`
 			}
 			json.Unmarshal(raw, &probe)
 			if probe.Loop != "" {
 				return replayLoop(raw, col)
+			}
+			if probe.Component == "bitset" {
+				return replayBS("C13", raw, col)
 			}
 			if probe.Scenario != "" {
 				// re-run the whole scenario (all interleavings are enumerated again)
